@@ -9,6 +9,7 @@ real `_get_call_node` on both backends.  No judgement is made here.
 """
 from __future__ import annotations
 
+import gc
 import hashlib
 import io
 import json
@@ -55,6 +56,15 @@ def files(base: str, n: int) -> dict:
     return {"fs": [mkfile(base + "/f%d.txt" % i, "t%d" % i) for i in range(n)], "n": n}
 
 @task()
+def inline_files(base: str, n: int) -> list:
+    out = []
+    for i in range(n):
+        f = File(base + "/g%d.txt" % i)
+        f.write("g%d" % i)
+        out.append(f)
+    return out        # these File values are reachable only as subvalues of the list
+
+@task()
 def apply(t, x: int):
     return t(x)
 
@@ -78,6 +88,8 @@ def main(kind: str = "fan", n: int = 3, seed: int = 0, base: str = "."):
         return twice(seed)
     if kind == "files":
         return files(base, n)
+    if kind == "inline":
+        return inline_files(base, n)
     if kind == "apply":
         return apply(leaf, seed)
     if kind == "chain":
@@ -86,7 +98,7 @@ def main(kind: str = "fan", n: int = 3, seed: int = 0, base: str = "."):
         return catch(boom(seed), ValueError, recover)
     if kind == "boom":
         return [leaf(seed), boom(seed)]
-    return [fan(n, seed), chain(seed), twice(n), files(base, 2), apply(leaf, n)]
+    return [fan(n, seed), chain(seed), twice(n), files(base, 2), apply(leaf, n), inline_files(base, 2)]
 '''
 
 TABLES = {
@@ -123,6 +135,19 @@ def dump(path):
         out[t] = sorted(([short(x) for x in r] for r in rows), key=lambda r: json.dumps(r))
     con.close()
     return out
+
+
+def release(be):
+    """Close a backend's session and connections (harness hygiene only)."""
+    if be is None:
+        return
+    try:
+        if getattr(be, "session", None) is not None:
+            be.session.close()
+        if getattr(be, "engine", None) is not None:
+            be.engine.dispose()
+    except Exception:
+        pass
 
 
 class World:
@@ -166,6 +191,11 @@ class World:
             err = f"SystemExit({e.code})"
         except Exception as e:       # a failing workflow raises its error
             err = f"{type(e).__name__}: {e}"[:200]
+        finally:
+            # a client that stays alive keeps its read transaction (sqlite SHARED lock) open
+            release(getattr(getattr(c, "scheduler", None), "backend", None))
+            del c
+            gc.collect()
         return res, buf.getvalue(), err
 
     def exec_ids(self, repo):
@@ -250,8 +280,14 @@ class World:
         be = self.backend(s)
         walk_roots = root_ids if root_ids else list(reversed(self.exec_ids(s)))
         rec["walk_roots"] = walk_roots
-        rec["iter_ids"] = [i for i in be.iter_record_ids(walk_roots)]
-        be.session.close()
+        try:
+            rec["iter_ids"] = [i for i in be.iter_record_ids(walk_roots)]
+        except Exception as e:
+            rec["iter_ids"] = []
+            rec["iter_error"] = f"{type(e).__name__}: {e}"[:200]
+        release(be)
+        del be
+        gc.collect()
         rec["n"], rec["error"] = self.transfer_once(st, root_ids)
         rec["dst_after"] = dump(self.db(d))
         rec["n2"], rec["error2"] = self.transfer_once(st, root_ids)
@@ -286,8 +322,8 @@ class World:
                                 "src": a.call_hash if a is not None else None,
                                 "dst": b.call_hash if b is not None else None})
         finally:
-            bs.session.close()
-            bd.session.close()
+            release(bs)
+            release(bd)
         return out
 
     def e2e(self):
